@@ -15,9 +15,11 @@
   * `restore_rounding_sharp` : `|fl(fl(x+d) - d) - x| ≤ u|x| + u(1+u)|x+d|`;
     `restore_rounding`       : `… ≤ gam 2 · (|x| + |d|)` (attained, see Examples);
     `restore_exact_of_rep`   : exact when `x + d` and `x` are representable.
-  * `evalPoint_drift`        : `x̃_c` coordinate by coordinate — `k < c`: `fl(fl(x_k+δ) - δ)`, off `x_k` by
-    `≤ gam 2 (|x_k| + |δ|)`; `k = c`: `fl(x_c+δ)`, off by `≤ u|x_c+δ|`; `k > c`: `x_k` exactly;
-    `evalPoint_drift_l1`     : `‖x̃_c - (x + δ e_c)‖₁ ≤ drift_c := u|x_c+δ| + gam 2 Σ_{k<c}(|x_k|+|δ|)`.
+    (Facts about the arithmetic only: the loop used to restore the perturbed coordinate by `(x+d) - d`;
+    since repair D15 it puts the SAVED coordinate back, so these no longer enter the bounds below.)
+  * `evalPoint_drift`        : `x̃_c` coordinate by coordinate — `k = c`: `fl(x_c+δ)`, off by
+    `≤ u|x_c+δ|`; `k ≠ c` (earlier AND later coordinates): `x_k` exactly;
+    `evalPoint_drift_l1`     : `‖x̃_c - (x + δ e_c)‖₁ ≤ drift_c := u|x_c+δ|`.
   * `quotient_rounding`      : `|fl(fl(a-b)/δ) - (a-b)/δ| ≤ gam 2 |a-b|/|δ|`;
     `jacobian_entry_rounding`: over `Fl M` with `δ ≠ 0` the call succeeds, the trace is
     `x, x̃_0, …, x̃_{n-1}`, entry `(i,c)` IS `fl(fl(a-b)/δ)`, `a = f(x̃_c)_i`, `b = f(x)_i`, with that bound.
@@ -301,7 +303,11 @@ end Real
 section Rounding
 variable {M : FlModel}
 
-/-! ### 1. the restore step `(x + d) - d` -/
+/-! ### 1. the restore step `(x + d) - d`
+
+  (how the loop USED to restore the perturbed coordinate; since repair D15 the saved coordinate is
+  put back and the restored working copy is exactly the point — `C18.restore_exact`.  The three
+  lemmas are kept as facts about the arithmetic: they quantify what the repair removed.) -/
 
 /-- **restore, sharp form**: the restored coordinate `fl(fl(x + d) - d)` differs from `x` by at most
     `u |x| + u (1+u) |x + d|` (one rounding of the sum, one of the difference; the second acts on
@@ -374,14 +380,14 @@ theorem idealPt_getD (point : Array (Fl M)) (δ : Fl M) (c k : ℕ) (hk : k < po
 
 /-- **the model's evaluation point for column `c`** (`evalPt`, the `(c+1)`-st entry of the call trace
     of `jacobian`, see `jacobian_entries`), coordinate by coordinate, and its distance from the ideal
-    point `x + δ e_c`: coordinates `k < c` have been perturbed and restored once — they hold
-    `fl(fl(x_k + δ) - δ)`, off by at most `((1+u)² - 1)(|x_k| + |δ|)`; coordinate `c` holds
-    `fl(x_c + δ)`, off by at most `u |x_c + δ|`; coordinates `k > c` are untouched. -/
+    point `x + δ e_c`: coordinates `k < c` have been perturbed and then RESTORED FROM THE SAVED VALUE
+    (repair D15) — they hold `x_k` exactly (they used to hold `fl(fl(x_k + δ) - δ)`, off by up to
+    `((1+u)² - 1)(|x_k| + |δ|)`); coordinate `c` holds `fl(x_c + δ)`, off by at most `u |x_c + δ|`;
+    coordinates `k > c` are untouched. -/
 theorem evalPoint_drift (point : Array (Fl M)) (δ : Fl M) (c k : ℕ) (hk : k < point.size) :
     (evalPt point δ c).getD k 0
-        = (if k < c then (point[k] + δ) - δ else if k = c then point[k] + δ else point[k]) ∧
-    (k < c → |((evalPt point δ c).getD k 0).val - point[k].val|
-        ≤ M.gam 2 * (|point[k].val| + |δ.val|)) ∧
+        = (if k = c then point[k] + δ else point[k]) ∧
+    (k < c → (evalPt point δ c).getD k 0 = point[k]) ∧
     (k = c → |((evalPt point δ c).getD k 0).val - (point[k].val + δ.val)|
         ≤ M.u * |point[k].val + δ.val|) ∧
     (c < k → (evalPt point δ c).getD k 0 = point[k]) := by
@@ -389,39 +395,34 @@ theorem evalPoint_drift (point : Array (Fl M)) (δ : Fl M) (c k : ℕ) (hk : k <
   have h := evalPt_get point δ c k hs hk
   rw [getD_lt _ _ _ hs, h]
   refine ⟨rfl, fun h1 => ?_, fun h1 => ?_, fun h1 => ?_⟩
-  · rw [if_pos h1]; exact restore_rounding _ _
-  · have : ¬ k < c := by omega
-    rw [if_neg this, if_pos h1]; exact Fl.add_err _ _
-  · have h2 : ¬ k < c := by omega
-    have h3 : ¬ k = c := by omega
-    rw [if_neg h2, if_neg h3]
+  · have h3 : ¬ k = c := by omega
+    rw [if_neg h3]
+  · rw [if_pos h1]; exact Fl.add_err _ _
+  · have h3 : ¬ k = c := by omega
+    rw [if_neg h3]
 
 /-- coordinatewise distance between the model's and the ideal evaluation point -/
 theorem evalPoint_drift_coord (point : Array (Fl M)) (δ : Fl M) (c k : ℕ) (hk : k < point.size) :
     |(vals (evalPt point δ c)).getD k 0 - (idealPt point δ c).getD k 0|
-      ≤ if k < c then M.gam 2 * (|point[k].val| + |δ.val|)
-        else if k = c then M.u * |point[k].val + δ.val| else 0 := by
+      ≤ if k = c then M.u * |point[k].val + δ.val| else 0 := by
   obtain ⟨_, h1, h2, h3⟩ := evalPoint_drift point δ c k hk
   rw [vals_getD, idealPt_getD point δ c k hk]
-  by_cases a : k < c
-  · have a' : ¬ k = c := by omega
-    rw [if_pos a, if_neg a']; exact h1 a
-  · by_cases b : k = c
-    · rw [if_neg a, if_pos b, if_pos b]; exact h2 b
-    · rw [if_neg a, if_neg b, if_neg b, h3 (by omega)]; simp
+  by_cases b : k = c
+  · rw [if_pos b, if_pos b]; exact h2 b
+  · by_cases a : k < c
+    · rw [if_neg b, if_neg b, h1 a]; simp
+    · rw [if_neg b, if_neg b, h3 (by omega)]; simp
 
 /-- the bound on the `ℓ¹` distance between the model's and the ideal evaluation point of column `c`:
-    `u |x_c + δ| + ((1+u)² - 1) Σ_{k<c} (|x_k| + |δ|)` -/
+    `u |x_c + δ|` — only the rounding of the perturbed coordinate; the earlier coordinates are
+    restored exactly (repair D15; the bound used to carry the extra term
+    `((1+u)² - 1) Σ_{k<c} (|x_k| + |δ|)` for the restore-by-subtraction) -/
 noncomputable def drift (point : Array (Fl M)) (δ : Fl M) (c : ℕ) : ℝ :=
   M.u * |(point.getD c 0).val + δ.val|
-    + M.gam 2 * ∑ k ∈ Finset.range c, (|(point.getD k 0).val| + |δ.val|)
 
 theorem drift_nonneg (point : Array (Fl M)) (δ : Fl M) (c : ℕ) : 0 ≤ drift point δ c := by
   have := M.u_nonneg
-  have := M.gam_nonneg 2
   unfold drift
-  have : 0 ≤ ∑ k ∈ Finset.range c, (|(point.getD k 0).val| + |δ.val|) :=
-    Finset.sum_nonneg (fun k _ => by positivity)
   positivity
 
 /-- **`ℓ¹` drift of the evaluation point** -/
@@ -429,8 +430,7 @@ theorem evalPoint_drift_l1 (point : Array (Fl M)) (δ : Fl M) (c : ℕ) (hc : c 
     ∑ k ∈ Finset.range point.size,
         |(vals (evalPt point δ c)).getD k 0 - (idealPt point δ c).getD k 0|
       ≤ drift point δ c := by
-  set b : ℕ → ℝ := fun k => if k < c then M.gam 2 * (|(point.getD k 0).val| + |δ.val|)
-        else if k = c then M.u * |(point.getD k 0).val + δ.val| else 0 with hb
+  set b : ℕ → ℝ := fun k => if k = c then M.u * |(point.getD k 0).val + δ.val| else 0 with hb
   have h1 : ∑ k ∈ Finset.range point.size,
         |(vals (evalPt point δ c)).getD k 0 - (idealPt point δ c).getD k 0|
       ≤ ∑ k ∈ Finset.range point.size, b k := by
@@ -445,18 +445,16 @@ theorem evalPoint_drift_l1 (point : Array (Fl M)) (δ : Fl M) (c : ℕ) (hc : c 
   have z : ∑ j ∈ Finset.range r, b (c + 1 + j) = 0 := by
     apply Finset.sum_eq_zero
     intro j _
-    have a1 : ¬ c + 1 + j < c := by omega
     have a2 : ¬ c + 1 + j = c := by omega
-    simp only [hb, if_neg a1, if_neg a2]
-  have s : ∑ k ∈ Finset.range c, b k
-      = M.gam 2 * ∑ k ∈ Finset.range c, (|(point.getD k 0).val| + |δ.val|) := by
-    rw [Finset.mul_sum]
-    apply Finset.sum_congr rfl
+    simp only [hb, if_neg a2]
+  have s : ∑ k ∈ Finset.range c, b k = 0 := by
+    apply Finset.sum_eq_zero
     intro k hk
     have : k < c := Finset.mem_range.mp hk
-    simp only [hb, if_pos this]
+    have a2 : ¬ k = c := by omega
+    simp only [hb, if_neg a2]
   have bc : b c = M.u * |(point.getD c 0).val + δ.val| := by
-    simp only [hb, lt_irrefl, if_false, if_true]
+    simp only [hb, if_true]
   rw [z, s, bc, drift]
   ring
 
@@ -616,7 +614,7 @@ theorem jacobian_total_error_fine (f : Array (Fl M) → Array (Fl M)) (G : Array
 
 /-- **truncation + rounding, classical form**: if moreover `|G_i| ≤ Gm` at the evaluation points,
     `|Ĵ_ic - ∂G_i/∂x_c(x)| ≤ M₂|δ|/2 + (L · drift_c + 2 Gm ((1+εf)(1+u)² - 1)) / |δ|`,
-    `drift_c = u|x_c + δ| + ((1+u)² - 1) Σ_{k<c} (|x_k| + |δ|)`:
+    `drift_c = u|x_c + δ|`:
     truncation `O(δ)` plus rounding `≈ 2(εf + 2u) max|G| / |δ|` plus the effect of evaluating at a
     point that is not exactly `x + δ e_c`. -/
 theorem jacobian_total_error (f : Array (Fl M) → Array (Fl M)) (G : Array ℝ → Array ℝ)
@@ -816,14 +814,10 @@ theorem evalPt_vals_exact (point : Array (Fl FlModel.exact)) (δ : Fl FlModel.ex
     have hk : k < point.size := by simpa using h1
     have h := evalPoint_drift_coord point δ c k hk
     rw [getD_lt _ _ _ h1, getD_lt _ _ _ h2] at h
-    have hz : (if k < c then FlModel.exact.gam 2 * (|point[k].val| + |δ.val|)
-        else if k = c then FlModel.exact.u * |point[k].val + δ.val| else 0) = 0 := by
-      have g0 : FlModel.exact.gam 2 = 0 := by simp [FlModel.gam, FlModel.exact]
+    have hz : (if k = c then FlModel.exact.u * |point[k].val + δ.val| else 0) = 0 := by
       have u0 : FlModel.exact.u = 0 := rfl
-      rw [g0, u0]
-      split
-      · simp
-      · split <;> simp
+      rw [u0]
+      split <;> simp
     rw [hz] at h
     exact sub_eq_zero.mp (abs_nonpos_iff.mp h)
 
@@ -919,40 +913,31 @@ example : ∃ J e, jacobian (fun p : Array (Fl FlModel.exact) => #[p.getD 0 0 * 
 
 /-- a `1 × 2` example for the box form: `G(x, y) = x y` evaluated as `fl(p₀ · p₁)` (`εf = u`) at
     `(1, 2)` with `δ = 1/4`, in ANY model with `u ≤ 1/8`: box `[0, 4]²`, `∂G/∂x = y`, `∂G/∂y = x`,
-    `L = 4`, `M₂ = 0`, `Gm = 16`.  Column `1` is evaluated at `(fl(fl(1 + δ) - δ), fl(2 + δ))`: the
-    restored first coordinate enters through `drift`. -/
+    `L = 4`, `M₂ = 0`, `Gm = 16`.  Column `1` is evaluated at `(1, fl(2 + δ))`: the first coordinate
+    is restored exactly (it used to be `fl(fl(1 + δ) - δ)` and entered through `drift`). -/
 theorem ex_product (hu : M.u ≤ 1 / 8) :
     ∃ J e, jacobian (fun p : Array (Fl M) => #[p.getD 0 0 * p.getD 1 0]) #[⟨1⟩, ⟨2⟩]
         (⟨1 / 4⟩ : Fl M)
         = .ok (J, [#[⟨1⟩, ⟨2⟩], #[(⟨1⟩ : Fl M) + ⟨1 / 4⟩, ⟨2⟩],
-            #[((⟨1⟩ : Fl M) + ⟨1 / 4⟩) - ⟨1 / 4⟩, (⟨2⟩ : Fl M) + ⟨1 / 4⟩]]) ∧
+            #[(⟨1⟩ : Fl M), (⟨2⟩ : Fl M) + ⟨1 / 4⟩]]) ∧
       Mat.Is J 1 2 e ∧
       |(e 0 0).val - 2| ≤ (4 * (M.u * (5 / 4)) + 2 * 16 * ((1 + M.u) * (1 + M.u) ^ 2 - 1)) / (1 / 4) ∧
-      |(e 0 1).val - 1| ≤ (4 * (M.u * (9 / 4) + M.gam 2 * (5 / 4))
+      |(e 0 1).val - 1| ≤ (4 * (M.u * (9 / 4))
           + 2 * 16 * ((1 + M.u) * (1 + M.u) ^ 2 - 1)) / (1 / 4) := by
   have hu0 := M.u_nonneg
-  have hg : M.gam 2 = 2 * M.u + M.u ^ 2 := by simp only [FlModel.gam]; ring
-  have hg1 : M.gam 2 ≤ 17 / 64 := by rw [hg]; nlinarith
-  -- the three rounded coordinates
+  -- the two rounded coordinates
   have a54 : |(1 : ℝ) + 1 / 4| = 5 / 4 := by rw [abs_of_pos (by norm_num)]; norm_num
   have a94 : |(2 : ℝ) + 1 / 4| = 9 / 4 := by rw [abs_of_pos (by norm_num)]; norm_num
   have f1 : |M.fl (1 + 1 / 4) - (1 + 1 / 4)| ≤ M.u * (5 / 4) := by
     have := M.fl_err (1 + 1 / 4); rwa [a54] at this
   have f2 : |M.fl (2 + 1 / 4) - (2 + 1 / 4)| ≤ M.u * (9 / 4) := by
     have := M.fl_err (2 + 1 / 4); rwa [a94] at this
-  have f3 : |M.fl (M.fl (1 + 1 / 4) - 1 / 4) - 1| ≤ M.gam 2 * (5 / 4) := by
-    have := restore_rounding (⟨1⟩ : Fl M) ⟨1 / 4⟩
-    have e : |(1 : ℝ)| + |(1 / 4 : ℝ)| = 5 / 4 := by
-      rw [abs_of_pos (by norm_num), abs_of_pos (by norm_num)]; norm_num
-    simp only [Fl.sub_val, Fl.add_val, e] at this
-    exact this
   obtain ⟨l1, r1⟩ := abs_le.mp f1
   obtain ⟨l2, r2⟩ := abs_le.mp f2
-  obtain ⟨l3, r3⟩ := abs_le.mp f3
   have ev0 : evalPt #[(⟨1⟩ : Fl M), ⟨2⟩] ⟨1 / 4⟩ 0 = #[(⟨1⟩ : Fl M) + ⟨1 / 4⟩, ⟨2⟩] := by
     simp [evalPt, stateAt]
   have ev1 : evalPt #[(⟨1⟩ : Fl M), ⟨2⟩] ⟨1 / 4⟩ 1
-      = #[((⟨1⟩ : Fl M) + ⟨1 / 4⟩) - ⟨1 / 4⟩, (⟨2⟩ : Fl M) + ⟨1 / 4⟩] := by
+      = #[(⟨1⟩ : Fl M), (⟨2⟩ : Fl M) + ⟨1 / 4⟩] := by
     simp [evalPt, stateAt]
   have two : ∀ c, c < 2 → c = 0 ∨ c = 1 := by omega
   have inbox : ∀ a b : ℝ, 0 ≤ a → a ≤ 4 → 0 ≤ b → b ≤ 4 →
@@ -985,8 +970,8 @@ theorem ex_product (hu : M.u ≤ 1 / 8) :
         simpa [vals] using inbox (M.fl (1 + 1 / 4)) 2 (by nlinarith) (by nlinarith) (by norm_num)
           (by norm_num)
       · rw [ev1]
-        simpa [vals] using inbox (M.fl (M.fl (1 + 1 / 4) - 1 / 4)) (M.fl (2 + 1 / 4))
-          (by nlinarith) (by nlinarith) (by nlinarith) (by nlinarith))
+        simpa [vals] using inbox 1 (M.fl (2 + 1 / 4))
+          (by norm_num) (by norm_num) (by nlinarith) (by nlinarith))
     (by
       intro c hc
       rcases two c hc with rfl | rfl
@@ -1046,13 +1031,10 @@ theorem ex_product (hu : M.u ≤ 1 / 8) :
   have ed : |(1 / 4 : ℝ)| = 1 / 4 := abs_of_pos (by norm_num)
   have hd0 : drift #[(⟨1⟩ : Fl M), ⟨2⟩] ⟨1 / 4⟩ 0 = M.u * (5 / 4) := by
     have : (#[(⟨1⟩ : Fl M), ⟨2⟩].getD 0 0).val = 1 := rfl
-    rw [drift, this, Finset.range_zero, Finset.sum_empty, a54]
-    ring
-  have hd1 : drift #[(⟨1⟩ : Fl M), ⟨2⟩] ⟨1 / 4⟩ 1 = M.u * (9 / 4) + M.gam 2 * (5 / 4) := by
-    have h0 : (#[(⟨1⟩ : Fl M), ⟨2⟩].getD 0 0).val = 1 := rfl
+    rw [drift, this, a54]
+  have hd1 : drift #[(⟨1⟩ : Fl M), ⟨2⟩] ⟨1 / 4⟩ 1 = M.u * (9 / 4) := by
     have h1 : (#[(⟨1⟩ : Fl M), ⟨2⟩].getD 1 0).val = 2 := rfl
-    rw [drift, h1, Finset.sum_range_one, h0, a94, ed]
-    norm_num
+    rw [drift, h1, a94]
   have v0 : (vals #[(⟨1⟩ : Fl M), ⟨2⟩]).getD 0 0 = 1 := by rw [vals_getD]; rfl
   have v1 : (vals #[(⟨1⟩ : Fl M), ⟨2⟩]).getD 1 0 = 2 := by rw [vals_getD]; rfl
   refine ⟨J, e, ?_, j2, ?_, ?_⟩
